@@ -3,6 +3,7 @@
 -/
 import BitstringModel.Model.C02
 import BitstringModel.Proofs.Basic
+import BitstringModel.Proofs.C02Ieee
 import Mathlib.Tactic.Ring
 import Mathlib.Tactic.Linarith
 
@@ -1384,5 +1385,333 @@ theorem streamRead_at' (k : Kind) (pre body post : Bits) (hl : ValidLen k body.l
   simp only [streamRead, getDtype_items k _ hl, resolveStretchy, Dt.bitlength, Option.map_some,
     readFn_at k pre body post hl, Option.getD_some, itemsOf_mul k _ hl]
   rw [if_neg (by simp [List.length_append])]
+
+section
+attribute [local irreducible] packFloat unpackFloat
+
+theorem bitsToInt_intToBits_n (n : Nat) (v : Int) (hn : n ≠ 0)
+    (hr : -((2 : Int) ^ (n - 1)) ≤ v ∧ v < (2 : Int) ^ (n - 1)) : bitsToInt (intToBits n v) = v := by
+  obtain ⟨k, rfl⟩ : ∃ k, n = k + 1 := ⟨n - 1, by omega⟩
+  exact bitsToInt_intToBits' k v (by simpa using hr)
+
+theorem validLen_of_valid (q : Req) (len : Option Nat) (hv : Valid q len = true) :
+    ValidLen q.kind (resultLen q len) = true := by
+  cases q with
+  | int k v =>
+    obtain ⟨n, rfl, hn, hc, _⟩ := valid_int k v len hv
+    rw [resultLen_some]; simp only [Req.kind, kind_mult_int, Nat.mul_one]
+    cases k <;> simp [IntKind.kind, ValidLen, hn]
+    all_goals (have := step8_dvd n (by simpa [IntKind.kind, Kind.allowed] using hc); omega)
+  | str k s =>
+    obtain ⟨_, hl⟩ := valid_str k s len hv
+    have hres : resultLen (.str k s) len = (k.canon s).length * k.width := by
+      rcases hl with rfl | rfl
+      · simp [resultLen, bitLen, naturalLen]
+      · rw [resultLen_some]; simp [Req.kind, kind_mult_str]
+    rw [hres]; cases k <;> simp [Req.kind, StrKind.kind, ValidLen, StrKind.width]
+  | flt k p =>
+    cases k
+    · obtain ⟨n, rfl, hn⟩ := valid_float _ (Or.inl rfl) p len hv
+      rw [resultLen_some]; simp [Req.kind, FltKind.kind, Kind.multiplier, ValidLen]; omega
+    · obtain ⟨n, rfl, hn⟩ := valid_float _ (Or.inr rfl) p len hv
+      rw [resultLen_some]; simp [Req.kind, FltKind.kind, Kind.multiplier, ValidLen]; omega
+    · rcases valid_bfloat _ (Or.inl rfl) p len hv with rfl | rfl <;> rfl
+    · rcases valid_bfloat _ (Or.inr rfl) p len hv with rfl | rfl <;> rfl
+  | bool a => rcases (valid_bool a len hv).2 with rfl | rfl <;> rfl
+  | bytes d =>
+    rcases (valid_bytes d len hv).2 with rfl | rfl <;> simp [resultLen, bitLen, naturalLen, Req.kind, Kind.multiplier, ValidLen]
+  | bits b => simp [Req.kind, ValidLen]
+  | pad => simp [Req.kind, ValidLen]
+
+theorem decode_encode' (q : Req) (len : Option Nat) (hv : Valid q len = true) :
+    getFn q.kind (encode q (resultLen q len)) = .ok (valueOf q (resultLen q len)) := by
+  have hlen := encode_length' q len hv
+  have hvl := validLen_of_valid q len hv
+  rw [getFn_valid q.kind _ (by rw [hlen]; exact hvl)]
+  congr 1
+  cases q with
+  | int k v =>
+    obtain ⟨n, rfl, hn, hc, hr⟩ := valid_int k v len hv
+    rw [resultLen_some] at hlen ⊢
+    simp only [Req.kind, kind_mult_int, Nat.mul_one] at hlen ⊢
+    have h8 : k.little = true → 8 ∣ n := by
+      intro hl; apply step8_dvd
+      cases k <;> simp [IntKind.little] at hl <;> simpa [IntKind.kind, Kind.allowed] using hc
+    cases k <;> simp only [IntKind.signed, Bool.false_eq_true, if_false, if_true, decide_eq_true_eq] at hr <;>
+      simp only [IntKind.kind, decodeSpec, encode, valueOf, RVal.int.injEq]
+    · rw [bitsToNat_natToBits n _ (by have := hr.2; zify; rw [Int.toNat_of_nonneg hr.1]; exact_mod_cast this)]
+      exact Int.toNat_of_nonneg hr.1
+    · exact bitsToInt_intToBits_n n v hn hr
+    · rw [bitsToNat_natToBits n _ (by have := hr.2; zify; rw [Int.toNat_of_nonneg hr.1]; exact_mod_cast this)]
+      exact Int.toNat_of_nonneg hr.1
+    · exact bitsToInt_intToBits_n n v hn hr
+    · have hd := h8 rfl
+      rw [← bytesRev_value' _ (by rw [bytesRev_length' _ (by simpa using hd)]; simpa using hd),
+        bytesRev_involutive' _ (by simpa using hd),
+        bitsToNat_natToBits n _ (by have := hr.2; zify; rw [Int.toNat_of_nonneg hr.1]; exact_mod_cast this)]
+      exact Int.toNat_of_nonneg hr.1
+    · have hd := h8 rfl
+      rw [bytesRev_involutive' _ (by simpa [intToBits] using hd)]
+      exact bitsToInt_intToBits_n n v hn hr
+  | str k s =>
+    obtain ⟨hall, _⟩ := valid_str k s len hv
+    obtain ⟨_, h2, h3⟩ := str_set_valid k s hall
+    have hw : 0 < k.width := by cases k <;> decide
+    have hdiv : (((k.canon s).filterMap k.val?).flatMap (natToBits k.width)).length / k.width = (k.canon s).length := by
+      rw [h3, Nat.mul_div_cancel _ hw]
+    unfold bitsToDigits at h2
+    rw [if_neg (by rw [h3]; simp), hdiv] at h2
+    simp only [Except.ok.injEq] at h2
+    cases k
+    · simp only [Req.kind, StrKind.kind, decodeSpec, encode, valueOf, RVal.str.injEq]
+      simp only [StrKind.width] at h2 hdiv ⊢; rw [hdiv]; exact h2
+    · simp only [Req.kind, StrKind.kind, decodeSpec, encode, valueOf, RVal.str.injEq]
+      simp only [StrKind.width] at h2 hdiv ⊢; rw [hdiv]; exact h2
+    · simp only [Req.kind, StrKind.kind, decodeSpec, encode, valueOf, RVal.str.injEq]
+      simp only [StrKind.width] at h2 hdiv h3 ⊢
+      rw [← groupsOf_one, h3, Nat.mul_one]; exact h2
+  | flt k p =>
+    cases k
+    · simp only [Req.kind, FltKind.kind, decodeSpec, valueOf, encode, RVal.flt.injEq]
+      simp only [encode] at hlen; rw [hlen]
+    · obtain ⟨n, rfl, hn⟩ := valid_float _ (Or.inr rfl) p len hv
+      simp only [Req.kind, FltKind.kind, decodeSpec, valueOf, encode, RVal.flt.injEq]
+      simp only [encode] at hlen; rw [hlen]
+      have h8 : 8 ∣ (packFloat (fltFmt (resultLen (.flt .floatle p) (some n))) p).length := by
+        rw [packFloat_length, resultLen_some]; simp only [Req.kind, kind_mult_flt, Nat.mul_one]
+        rw [fltFmt_width _ hn]; rcases hn with rfl | rfl | rfl <;> decide
+      rw [bytesRev_involutive' _ h8]
+    · simp only [Req.kind, FltKind.kind, decodeSpec, valueOf, encode, RVal.flt.injEq]
+    · simp only [Req.kind, FltKind.kind, decodeSpec, valueOf, encode, RVal.flt.injEq]
+      rw [bytesRev_involutive' _ (by simp [packFloat_length, Ieee.Fmt.width, Ieee.f32])]
+  | bool a =>
+    have hr : resultLen (.bool a) len = 1 := by rcases (valid_bool a len hv).2 with rfl | rfl <;> rfl
+    rw [hr]; cases a <;> rfl
+  | bytes d =>
+    simp only [Req.kind, decodeSpec, valueOf, encode, RVal.bytes.injEq]
+    exact toBytes_fromBytes' d (valid_bytes d len hv).1
+  | bits b => rfl
+  | pad => rfl
+
+end
+
+
+
+section
+attribute [local irreducible] packFloat unpackFloat
+
+theorem groupsOf_length (k n : Nat) (b : Bits) : (groupsOf k n b).length = n := by
+  induction n generalizing b with
+  | zero => rfl
+  | succ n ih => simp [groupsOf, ih]
+
+theorem digitChar_not_upper : ∀ n, n < 16 → ¬ (65 ≤ (digitChar n).toNat ∧ (digitChar n).toNat ≤ 90) := by decide
+
+theorem fltFmt_ok (n : Nat) : (fltFmt n).ok := by
+  unfold fltFmt
+  split
+  · exact Ieee.stdFmt_ok _ (Or.inl rfl)
+  · split
+    · exact Ieee.stdFmt_ok _ (Or.inr (Or.inl rfl))
+    · exact Ieee.stdFmt_ok _ (Or.inr (Or.inr rfl))
+
+/-- Digit dtypes: the printed digits form a valid request that encodes back to the pattern. -/
+theorem digits_roundtrip (k : StrKind) (b : Bits) (h : k.width ∣ b.length) (s : List Char)
+    (hs : bitsToDigits k.width b = .ok s) :
+    Valid (.str k s) (some b.length) = true ∧ encode (.str k s) b.length = b := by
+  have hw : 0 < k.width := by cases k <;> decide
+  have hval : ∀ n, n < 2 ^ k.width → k.val? (digitChar n) = some n := by
+    cases k
+    · exact hexVal_digitChar
+    · exact octVal_digitChar
+    · exact binVal_digitChar
+  obtain ⟨s', h1, h2, h3⟩ := parse_print k.width hw k.val? hval b h
+  rw [hs] at h1; cases h1
+  have h16 : ∀ c ∈ s, ∃ n, n < 16 ∧ (n < 2 → k = .bin ∨ True) ∧ c = digitChar n ∧ n < 2 ^ k.width := by
+    intro c hc
+    obtain ⟨n, hn, rfl⟩ := h3 c hc
+    refine ⟨n, ?_, fun _ => Or.inr trivial, rfl, hn⟩
+    cases k <;> simp [StrKind.width] at hn <;> omega
+  have hcanon : k.canon s = s := by
+    have ht : tidy s = s := tidy_fix s (fun c hc => by
+      obtain ⟨n, hn, _, rfl, _⟩ := h16 c hc
+      have := digitChar_plain n hn; exact ⟨this.1, this.2.1, this.2.2.1⟩)
+    cases k
+    · simp only [StrKind.canon, ht]
+      exact removeAll2_fix _ _ s (fun c hc => by obtain ⟨n, hn, _, rfl, _⟩ := h16 c hc; exact (digitChar_plain n hn).2.2.2.1)
+    · simp only [StrKind.canon, ht]
+      exact removeAll2_fix _ _ s (fun c hc => by obtain ⟨n, hn, _, rfl, _⟩ := h16 c hc; exact (digitChar_plain n hn).2.2.2.2.1)
+    · simp only [StrKind.canon, ht]
+      exact removeAll2_fix _ _ s (fun c hc => by
+        obtain ⟨n, hn, _, rfl, hn2⟩ := h16 c hc
+        exact (digitChar_plain n hn).2.2.2.2.2 (by simpa [StrKind.width] using hn2))
+  have hall : s.all (fun c => (k.val? c).isSome) = true := by
+    rw [List.all_eq_true]; intro c hc
+    obtain ⟨n, _, _, rfl, hn2⟩ := h16 c hc
+    rw [hval n hn2]; rfl
+  have hup : ∀ c ∈ s, ¬ (65 ≤ c.toNat ∧ c.toNat ≤ 90) := by
+    intro c hc; obtain ⟨n, hn, _, rfl, _⟩ := h16 c hc; exact digitChar_not_upper n hn
+  obtain ⟨p1, _, p3⟩ := parse_then_print k.width hw k.val? (good_kind k) s hup hall
+  rw [h2] at p1
+  simp only [Except.ok.injEq] at p1
+  constructor
+  · simp only [Valid, hcanon, hall, Bool.true_and, decide_eq_true_eq]
+    rw [← p3, ← p1]
+  · simp only [encode, hcanon]; exact p1.symm
+
+end
+
+
+section
+attribute [local irreducible] packFloat unpackFloat
+
+theorem natCast_range (N n : Nat) (h : N < 2 ^ n) : (0 : Int) ≤ (N : Int) ∧ (N : Int) < (2 : Int) ^ n := by
+  constructor
+  · exact Int.natCast_nonneg N
+  · exact_mod_cast h
+
+theorem step8_contains (n : Nat) (h : n % 8 = 0) : (Allowed.step 8 16).contains n = true := by
+  simp [Allowed.contains]; omega
+
+theorem encode_decode' (k : Kind) (b : Bits) (hl : ValidLen k b.length = true) (q : Req)
+    (hq : reqOfValue k (decodeSpec k b) = some q) :
+    Valid q (some (itemsOf k b.length)) = true ∧ encode q b.length = b := by
+  have hlt := bitsToNat_lt b
+  cases k
+  case uint =>
+    simp [ValidLen] at hl
+    simp only [decodeSpec, reqOfValue, Option.some.injEq] at hq; subst hq
+    have := natCast_range _ _ hlt
+    simp [Valid, itemsOf, Kind.multiplier, hl, IntKind.kind, Kind.allowed, Allowed.contains, IntKind.signed, this, encode,
+      natToBits_bitsToNat]
+  case int =>
+    simp [ValidLen] at hl
+    have hne : b ≠ [] := by rintro rfl; simp at hl
+    simp only [decodeSpec, reqOfValue, Option.some.injEq] at hq; subst hq
+    have := bitsToInt_range' b hne
+    simp [Valid, itemsOf, Kind.multiplier, hl, IntKind.kind, Kind.allowed, Allowed.contains, IntKind.signed, this, encode,
+      intToBits_bitsToInt' b hne]
+  case uintbe =>
+    simp [ValidLen] at hl
+    simp only [decodeSpec, reqOfValue, Option.some.injEq] at hq; subst hq
+    have := natCast_range _ _ hlt
+    have hc := step8_contains _ hl.2
+    simp [Valid, itemsOf, Kind.multiplier, hl, IntKind.kind, Kind.allowed, hc, IntKind.signed, this, encode,
+      natToBits_bitsToNat]
+  case intbe =>
+    simp [ValidLen] at hl
+    have hne : b ≠ [] := by rintro rfl; simp at hl
+    simp only [decodeSpec, reqOfValue, Option.some.injEq] at hq; subst hq
+    have := bitsToInt_range' b hne
+    have hc := step8_contains _ hl.2
+    simp [Valid, itemsOf, Kind.multiplier, hl, IntKind.kind, Kind.allowed, hc, IntKind.signed, this, encode,
+      intToBits_bitsToInt' b hne]
+  case uintle =>
+    simp [ValidLen] at hl
+    have h8 : 8 ∣ b.length := Nat.dvd_of_mod_eq_zero hl.2
+    simp only [decodeSpec, reqOfValue, Option.some.injEq] at hq; subst hq
+    have hrl := bytesRev_length' b h8
+    have hlt' := bitsToNat_lt (bytesRev b)
+    rw [hrl, bytesRev_value' b h8] at hlt'
+    have := natCast_range _ _ hlt'
+    have hc := step8_contains _ hl.2
+    have he : bytesRev (natToBits b.length (leValue (toBytes b))) = b := by
+      rw [← bytesRev_value' b h8, ← hrl, natToBits_bitsToNat, bytesRev_involutive' b h8]
+    simp [Valid, itemsOf, Kind.multiplier, hl, IntKind.kind, Kind.allowed, hc, IntKind.signed, this, encode, he]
+  case intle =>
+    simp [ValidLen] at hl
+    have h8 : 8 ∣ b.length := Nat.dvd_of_mod_eq_zero hl.2
+    have hrl := bytesRev_length' b h8
+    have hne : bytesRev b ≠ [] := by
+      intro h; rw [h] at hrl; simp only [List.length_nil] at hrl; exact hl.1 (List.eq_nil_of_length_eq_zero hrl.symm)
+    simp only [decodeSpec, reqOfValue, Option.some.injEq] at hq; subst hq
+    have := bitsToInt_range' _ hne
+    rw [hrl] at this
+    have hc := step8_contains _ hl.2
+    have he : bytesRev (intToBits b.length (bitsToInt (bytesRev b))) = b := by
+      rw [← hrl, intToBits_bitsToInt' _ hne, bytesRev_involutive' b h8]
+    simp [Valid, itemsOf, Kind.multiplier, hl, IntKind.kind, Kind.allowed, hc, IntKind.signed, this, encode, he]
+  case hex =>
+    simp [ValidLen] at hl
+    simp only [decodeSpec, reqOfValue, Option.some.injEq] at hq; subst hq
+    have := digits_roundtrip .hex b (Nat.dvd_of_mod_eq_zero hl) _ (by simp only [bitsToDigits, StrKind.width, hl]; rfl)
+    simpa [itemsOf, Kind.multiplier] using this
+  case oct =>
+    simp [ValidLen] at hl
+    simp only [decodeSpec, reqOfValue, Option.some.injEq] at hq; subst hq
+    have := digits_roundtrip .oct b (Nat.dvd_of_mod_eq_zero hl) _ (by simp only [bitsToDigits, StrKind.width, hl]; rfl)
+    simpa [itemsOf, Kind.multiplier] using this
+  case bin =>
+    simp only [decodeSpec, reqOfValue, Option.some.injEq] at hq; subst hq
+    have := digits_roundtrip .bin b (Nat.one_dvd _) (b.map fun x => if x then '1' else '0')
+      (by simp [bitsToDigits, StrKind.width, Nat.mod_one, groupsOf_one])
+    simpa [itemsOf, Kind.multiplier] using this
+  case float =>
+    have hn : b.length = 16 ∨ b.length = 32 ∨ b.length = 64 := by simpa [ValidLen, or_assoc] using hl
+    simp only [decodeSpec] at hq
+    cases hu : unpackFloat (fltFmt b.length) b with
+    | none => rw [hu] at hq; simp [reqOfValue] at hq
+    | some p =>
+      rw [hu] at hq; simp only [reqOfValue, Option.some.injEq] at hq; subst hq
+      have := Ieee.packFloat_unpackFloat' _ (fltFmt_ok b.length) b (fltFmt_width _ hn).symm p hu
+      refine ⟨by simp [Valid, itemsOf, Kind.multiplier]; omega, ?_⟩
+      simp only [encode]; exact this
+  case floatle =>
+    have hn : b.length = 16 ∨ b.length = 32 ∨ b.length = 64 := by simpa [ValidLen, or_assoc] using hl
+    have h8 : 8 ∣ b.length := by rcases hn with h | h | h <;> rw [h] <;> decide
+    have hrl := bytesRev_length' b h8
+    simp only [decodeSpec] at hq
+    cases hu : unpackFloat (fltFmt b.length) (bytesRev b) with
+    | none => rw [hu] at hq; simp [reqOfValue] at hq
+    | some p =>
+      rw [hu] at hq; simp only [reqOfValue, Option.some.injEq] at hq; subst hq
+      have := Ieee.packFloat_unpackFloat' _ (fltFmt_ok b.length) (bytesRev b) (by rw [hrl, fltFmt_width _ hn]) p hu
+      refine ⟨by simp [Valid, itemsOf, Kind.multiplier]; omega, ?_⟩
+      simp only [encode]; rw [this, bytesRev_involutive' b h8]
+  case bfloat =>
+    have h16 : b.length = 16 := by simpa [ValidLen] using hl
+    simp only [decodeSpec] at hq
+    cases hu : unpackFloat Ieee.f32 (b ++ List.replicate 16 false) with
+    | none => rw [hu] at hq; simp [reqOfValue] at hq
+    | some p =>
+      rw [hu] at hq; simp only [reqOfValue, Option.some.injEq] at hq; subst hq
+      have := Ieee.packFloat_unpackFloat' _ (Ieee.stdFmt_ok _ (Or.inr (Or.inl rfl))) (b ++ List.replicate 16 false)
+        (by simp [h16, Ieee.Fmt.width, Ieee.f32]) p hu
+      refine ⟨by simp [Valid, itemsOf, Kind.multiplier, h16], ?_⟩
+      simp only [encode]; rw [this, List.take_left' h16]
+  case bfloatle =>
+    have h16 : b.length = 16 := by simpa [ValidLen] using hl
+    have h8 : 8 ∣ b.length := by rw [h16]; decide
+    have hrl := bytesRev_length' b h8
+    simp only [decodeSpec] at hq
+    cases hu : unpackFloat Ieee.f32 (bytesRev b ++ List.replicate 16 false) with
+    | none => rw [hu] at hq; simp [reqOfValue] at hq
+    | some p =>
+      rw [hu] at hq; simp only [reqOfValue, Option.some.injEq] at hq; subst hq
+      have := Ieee.packFloat_unpackFloat' _ (Ieee.stdFmt_ok _ (Or.inr (Or.inl rfl))) (bytesRev b ++ List.replicate 16 false)
+        (by simp [hrl, h16, Ieee.Fmt.width, Ieee.f32]) p hu
+      refine ⟨by simp [Valid, itemsOf, Kind.multiplier, h16], ?_⟩
+      simp only [encode]; rw [this, List.take_left' (by rw [hrl, h16]), bytesRev_involutive' b h8]
+  case bits =>
+    simp only [decodeSpec, reqOfValue, Option.some.injEq] at hq; subst hq
+    simp [Valid, itemsOf, Kind.multiplier, encode]
+  case bool =>
+    have h1 : b.length = 1 := by simpa [ValidLen] using hl
+    match b, h1 with
+    | [x], _ =>
+      simp only [decodeSpec, reqOfValue, Option.some.injEq] at hq; subst hq
+      simp [Valid, itemsOf, Kind.multiplier, encode, BoolArg.valid]
+  case bytes =>
+    simp [ValidLen] at hl
+    have h8 : 8 ∣ b.length := Nat.dvd_of_mod_eq_zero hl
+    simp only [decodeSpec, reqOfValue, Option.some.injEq] at hq; subst hq
+    have h1 := toBytes_lt b h8
+    have h2 := toBytes_length b h8
+    have h3 := fromBytes_toBytes' b h8
+    simp [Valid, itemsOf, Kind.multiplier, encode, h2, h3]
+    exact h1
+  case pad => simp [reqOfValue] at hq
+
+end
 
 end BM.C02
